@@ -506,13 +506,13 @@ Proof.
   { destruct (Nat.le_gt_cases cs ce) as [|Hgt]; [assumption|].
     pose proof (byte_of_char_strict s ce cs Hgt Ls). lia. }
   unfold byte_span_location. cbn [sp_start sp_end sp_src]. rewrite Hs, He. cbn [bind].
-  pose proof (composed_one_in_bounds s (Span cs ce 1)) as C. cbn [sp_start sp_end sp_src] in C. Show. rewrite (C Hc Le).
+  pose proof (composed_one_in_bounds s (Span cs ce 1)) as C. cbn [sp_start sp_end sp_src] in C. unfold source in *. rewrite (C Hc Le).
   cbn [bind snd]. split.
   - intro E. destruct (ascii_before_byte s be) eqn:A; [reflexivity|exfalso].
     assert (ce <> be) as Ne.
     { intro X. apply (char_eq_byte_iff_ascii _ _ _ He) in X. congruence. }
     destruct (Nat.le_gt_cases be (length s)) as [Hin|Hout].
-    + pose proof (composed_one_in_bounds s (Span bs be 1)) as D. cbn [sp_start sp_end sp_src] in D.
+    + pose proof (composed_one_in_bounds s (Span bs be 1)) as D. cbn [sp_start sp_end sp_src] in D. unfold source in *.
       rewrite (D Hle Hin) in E. cbn [bind snd] in E. injection E as _ E2. apply locate_injective in E2; lia.
     + assert (composed_one [(1, s)] (Some (Span bs be 1)) = Panic) as P.
       { apply (composed_one_panics_iff s (Span bs be 1)). cbn [sp_start sp_end]. lia. }
@@ -550,7 +550,7 @@ Proof.
   exists cs, ce. split; [|repeat split; assumption].
   unfold byte_span_location. rewrite <- Es, <- Ee, !char_of_byte_of_char by assumption. cbn [bind].
   pose proof (composed_one_in_bounds s (Span cs ce (sp_src sp))) as C. cbn [sp_start sp_end sp_src] in C.
-  rewrite (C Hc Hce). reflexivity.
+  unfold source in *. rewrite (C Hc Hce). reflexivity.
 Qed.
 
 (* ------------------------------------------------------------ interpolation rebasing *)
